@@ -136,7 +136,33 @@ class Builder(object):
   # arithmetic -------------------------------------------------------------
   def add(self, a, b): return self.mk("add", (a, b), None, "F", True)
   def sub(self, a, b): return self.mk("sub", (a, b), None, "F", True)
-  def mul(self, a, b): return self.mk("mul", (a, b), None, "F", True)
+  def mul(self, a, b):
+    of = getattr(self, "opaque_factors", None)
+    if of:
+      if a.nid in of:
+        return self.opaque_mul(a, b)
+      if b.nid in of:
+        return self.opaque_mul(b, a)
+    return self.mk("mul", (a, b), None, "F", True)
+
+  def opaque_mul(self, g, a):
+    """g*a for a designated symbolic factor g (e.g. qnoise_factor): the 24x24-bit multiplier is not bit-blasted; the
+    product is a fresh value constrained by facts that hold for every IEEE multiplication with RNE and flushing:
+    g=0 -> +-0, g=1 -> a, 0<=g<=1 -> between 0 and a.  Applications with equal arguments are equal (congruence)."""
+    key = ("opmul", g.nid, a.nid)
+    if key in self.stub_memo:
+      return self.stub_memo[key]
+    r = self.freevar("opmul", nosub=True)
+    self.stub_memo[key] = r
+    self.stubs.append(dict(kind="opmul", arg=a, arg2=g, res=r, origin=None))
+    fin = "(and (not (fp.isNaN {1})) (not (fp.isInfinite {1})) (not (fp.isNaN {0})) (not (fp.isInfinite {0})))"
+    self.side.append(L("(=> (and " + fin + " (fp.isZero {0})) (fp.isZero {2}))", g, a, r))
+    self.side.append(L("(=> (and " + fin + " (fp.eq {0} %s)) (fp.eq {2} {1}))" % fp_lit(1.0), g, a, r))
+    self.side.append(L("(=> (and " + fin + " (fp.leq %s {0}) (fp.leq {0} %s)) (and (=> (fp.geq {1} %s) (and (fp.leq %s {2}) (fp.leq {2} {1})))"
+                       " (=> (fp.leq {1} %s) (and (fp.leq {1} {2}) (fp.leq {2} %s)))))" % (PZ, fp_lit(1.0), PZ, PZ, PZ, PZ), g, a, r))
+    self.side.append(L("(=> (or (fp.isNaN {0}) (fp.isNaN {1})) (fp.isNaN {2}))", g, a, r))
+    self.side.append(L("(not (fp.isSubnormal {0}))", r))
+    return r
   def div(self, a, b): return self.mk("div", (a, b), None, "F", True)
   def neg(self, a): return self.mk("neg", (a,), None, "F", a.nosub)
   def abs(self, a): return self.mk("abs", (a,), None, "F", a.nosub)
@@ -258,7 +284,7 @@ class Builder(object):
     (validated: see qz.validate_log_contract), so only determinism is assumed."""
     done = getattr(self, "_closed", set())
     self._closed = done
-    for kind in ("log", "tanh", "sigmoid", "pow2"):
+    for kind in ("log", "tanh", "sigmoid", "pow2", "opmul"):
       ss = [s for s in self.stubs if s["kind"] == kind]
       for i in range(len(ss)):
         for j in range(i + 1, len(ss)):
@@ -266,7 +292,10 @@ class Builder(object):
           if (a["res"].nid, b["res"].nid) in done:
             continue
           done.add((a["res"].nid, b["res"].nid))
-          self.side.append(L("(=> (= {0} {1}) (= {2} {3}))", a["arg"], b["arg"], a["res"], b["res"]))
+          if kind == "opmul":
+            self.side.append(L("(=> (and (fp.eq {0} {1}) (fp.eq {4} {5})) (fp.eq {2} {3}))", a["arg"], b["arg"], a["res"], b["res"], a["arg2"], b["arg2"]))
+          else:
+            self.side.append(L("(=> (= {0} {1}) (= {2} {3}))", a["arg"], b["arg"], a["res"], b["res"]))
 
 
 # --- log contract tables -----------------------------------------------------
